@@ -10,4 +10,4 @@ Extraction "model.ml" Text.write_continue Text.write_lines Ustr.lstrip Ustr.rstr
   StrHelpers.len_trim StrHelpers.str_copy StrHelpers.blank_fill StrHelpers.str_alloc StrHelpers.str_array_alloc
   Lexer.tokenize Expr.check_expr Expr.parse_enum Expr.print_expr Enum.derive Enum.cxx_values
   LuaDispatch.dispatch LuaDispatch.lay_function LuaDispatch.lay_method
-  PyDispatch.py_dispatch HelperDeps.gather Decl.parse_statement Attrs.parse_and_verify Render.render_decl Render.reparse Names.expand Names.nm_c_name Names.nm_f_impl Names.nm_f_generic Names.un_camel Capsule.crun Capsule.cstep Capsule.init RoundTrip.in_fragment RenderLex.text_fragment PyHandles.compile PyHandles.py_init ExprRT.canon ExprLex.etext.
+  PyDispatch.py_dispatch HelperDeps.gather Decl.parse_statement Attrs.parse_and_verify Render.render_decl Render.reparse Names.expand Names.expand_w Names.nm_c_name Names.nm_f_impl Names.nm_f_generic Names.un_camel Capsule.crun Capsule.cstep Capsule.init RoundTrip.in_fragment RenderLex.text_fragment PyHandles.compile PyHandles.py_init ExprRT.canon ExprLex.etext.
